@@ -180,6 +180,7 @@ func (e *Exec) execStmt1(st *State, s ast.Stmt, label string) *State {
 				} else {
 					v = e.zero(obj.Type())
 				}
+				v = e.toSort(v, e.varSort(obj))
 				e.declareLocal(st, n, v)
 			}
 		}
@@ -337,6 +338,9 @@ func (e *Exec) execAssign(st *State, s *ast.AssignStmt) {
 		r := e.eval(st, s.Rhs[0])
 		if l.Sort == SBV64 && r.Sort == SInt && op != token.SHL && op != token.SHR {
 			r = e.toSort(r, SBV64)
+		}
+		if l.Sort == SInt && r.Sort == SBV64 && (op == token.ADD || op == token.SUB) {
+			r = e.toSort(r, SInt) // numeric (`ints`) accumulator: the addend is read as a number
 		}
 		v := e.arith(st, op, l, r, t, e.typeOf(s.Rhs[0]), s)
 		e.assignTo(st, s.Lhs[0], v, t)
@@ -552,6 +556,7 @@ func (e *Exec) execSwitch(st *State, s *ast.SwitchStmt, label string) *State {
 			continue
 		}
 		var conds []Term
+		e.syncCtx(rest.pc.S) // the case conditions are evaluated on the fall-through path, not inside the previous case body
 		for _, x := range c.List {
 			if s.Tag != nil {
 				v := e.eval(rest, x)
@@ -612,6 +617,7 @@ func (e *Exec) execTypeSwitch(st *State, s *ast.TypeSwitchStmt, label string) *S
 		}
 		var conds []Term
 		var single types.Type
+		e.syncCtx(rest.pc.S)
 		for _, x := range c.List {
 			tt := e.typeOf(x)
 			if id, ok := x.(*ast.Ident); ok && id.Name == "nil" {
